@@ -272,7 +272,7 @@ def extract_class(cls: ast.ClassDef, defaults, mixin_fields, fname):
     where = f'{fname}:{cls.name}'
     info = {'name': cls.name, 'rule': '', 'fields': [], 'indent_by': False, 'pivots': {}, 'first': [], 'last': [],
             'clone': [], 'clone_indent_by': False, 'reattach': [], 'reattach_store': False, 'eq': [], 'eq_isinstance': '',
-            'from_children': [], 'from_children_reattach': [], 'auto_claim': [], 'iter_children': [], 'props': [],
+            'from_children': [], 'from_children_reattach': [], 'auto_claim': [], 'iter_children': [], 'props': [], 'pivot_decorators': [],
             'bases': [ast.unparse(b) for b in cls.bases]}
     uses_mixin = any('SurroundingCommentsMixin' in b for b in info['bases'])
     if uses_mixin:
@@ -301,6 +301,7 @@ def extract_class(cls: ast.ClassDef, defaults, mixin_fields, fname):
             body = [b for b in st.body if not (isinstance(b, ast.Expr) and isinstance(b.value, ast.Constant))]
             if st.name.endswith('_pivot') and body and isinstance(body[-1], ast.Return):
                 info['pivots'][st.name] = parse_chain(body[-1].value, where + '.' + st.name)
+                info['pivot_decorators'].append((st.name, [ast.unparse(d).split('.')[-1] for d in st.decorator_list]))
             elif st.name in ('first_token', 'last_token') and body and isinstance(body[-1], ast.Return):
                 info['first' if st.name == 'first_token' else 'last'] = parse_chain(body[-1].value, where + '.' + st.name)
             elif st.name == 'clone' and body and isinstance(body[-1], ast.Return) and isinstance(body[-1].value, ast.Call):
@@ -456,7 +457,8 @@ def emit_schema(classes) -> str:
         L.append(f'    eqFields := {llist(c["eq"], lstr)}, eqIsinstance := {lstr(c["eq_isinstance"])},')
         L.append(f'    fromChildren := {llist(c["from_children"], lstr)}, fromChildrenReattach := {llist(c["from_children_reattach"], lstr)},')
         L.append(f'    autoClaim := {llist(c["auto_claim"], lstr)}, iterChildren := {llist(c["iter_children"], lstr)},')
-        L.append('    props := ' + llist(c['props'], lambda t: f'({lstr(t[0])}, {lstr(t[1])}, {llist(t[2], lstr)})') + ' }')
+        L.append('    props := ' + llist(c['props'], lambda t: f'({lstr(t[0])}, {lstr(t[1])}, {llist(t[2], lstr)})') + ',')
+        L.append('    pivotDecorators := ' + llist(c['pivot_decorators'], lambda t: f'({lstr(t[0])}, {llist(t[1], lstr)})') + ' }')
         L.append('')
     L.append('def allClasses : List ClassSchema := ' + llist(names))
     L += ['', 'end Autobean.Generated', '']
